@@ -422,4 +422,49 @@ theorem getD_range_map' {α : Type} (n i : Nat) (f : Nat → α) (d : α) (h : i
   simp [List.getD_eq_getElem?_getD, h]
 
 
+section liftAll
+variable {S : Type}
+theorem obsPerson_all_mapIdx [Inhabited S] (isZero : S → Bool) (d : Nat) (g₀ : S → S) :
+    ∀ (pe : List (List S)) (cp : List S) (s : Nat) (F : Nat → List S → List S), (∀ i pt, (F i pt).length = pt.length) →
+      (∀ i pt, i < pe.length → d < pt.length → (F i pt).getD d default = g₀ (pt.getD d default)) →
+      obsPersonFrom s d (fun _ => true) (pe.mapIdx F) (List.zipWith (kpt isZero) pe cp) =
+        (obsPersonFrom s d (fun _ => true) pe (List.zipWith (kpt isZero) pe cp)).map g₀
+  | [], cp, s, F, _, _ => by simp [obsPersonFrom]
+  | pt :: rest, [], s, F, _, _ => by simp [obsPersonFrom]
+  | pt :: rest, c :: cs, s, F, hlen, hval => by
+    have ih := obsPerson_all_mapIdx isZero d g₀ rest cs (s + 1) (fun i => F (i + 1)) (fun i pt => hlen (i + 1) pt)
+      (fun i pt hi hd => hval (i + 1) pt (by simp; omega) hd)
+    unfold obsPersonFrom at ih ⊢
+    simp only [List.filter_true, List.mapIdx_cons, List.zipWith_cons_cons, List.zip_cons_cons, List.zipIdx_cons, List.filterMap_cons] at ih ⊢
+    by_cases hflag : (kpt isZero pt c).getD d true = true
+    · simp only [hflag, if_true]
+      exact ih
+    · have hflag' : (kpt isZero pt c).getD d true = false := by simpa using hflag
+      have hd : d < pt.length := by
+        have := getD_flag_lt _ d hflag'
+        rwa [kpt_length] at this
+      simp only [hflag', Bool.false_eq_true, if_false, List.map_cons, hval 0 pt (by simp) hd]
+      rw [ih]
+
+theorem columnVals_all_mapCoordsN [Inhabited S] {isZero : S → Bool} {F P N D : Nat} {b : PBody S} (h : BInv isZero F P N D b) (g : Nat → Nat → S → S) (fps' : S) (d : Nat)
+    (g₀ : S → S) (hg : ∀ n, n < N → g n d = g₀) (n : Nat) :
+    columnVals (mapCoordsN isZero g fps' b) true n d = (columnVals b true n d).map g₀ := by
+  rw [mapCoordsN_eq h]
+  unfold columnVals
+  simp only [if_true, List.zip_map_left, List.flatMap_map, List.map_flatMap]
+  rw [h.consistent, deriveMissing_eq]
+  apply flatMap_congr_mem
+  intro ⟨fr, mfr⟩ hx
+  obtain ⟨hfr, cf, hcf, rfl⟩ := mem_zip_zipWith _ hx
+  simp only [Function.comp, Prod.map_apply, id, List.zip_map_left, List.flatMap_map, List.map_flatMap]
+  apply flatMap_congr_mem
+  intro ⟨pe, mpe⟩ hy
+  obtain ⟨hpe, cp, hcp, rfl⟩ := mem_zip_zipWith _ hy
+  simp only [Function.comp, Prod.map_apply, id]
+  have hN : pe.length = N := ((h.data.2 fr hfr).2 pe hpe).1
+  exact obsPerson_all_mapIdx isZero d g₀ pe cp 0 (fun n pt => pt.mapIdx (g n)) (fun i pt => by simp)
+    (fun i pt hi hd => by rw [getD_mapIdx_lt (g i) _ d hd, hg i (by omega)])
+
+end liftAll
+
 end PoseVerif.Props.C13
